@@ -2,19 +2,28 @@
 (***************************************************************************)
 (* Trace validation for C07.  A case is one pair of typed numbers {a, b}   *)
 (* with the recorded result of (op a b) (sw = 0) and (op b a) (sw = 1) on  *)
-(* the real interpreter for every operator: 22 events.  Every event is     *)
-(* judged by NumTower!Expect on the 64-bit tower (8 limbs of 8 bits,       *)
-(* floats 1+11+52); when the events are exhausted the laws of the          *)
-(* statement are checked on the RECORDED results of the case: for non-NaN  *)
-(* operands exactly one of < == > holds, and (< a b) = (> b a).            *)
+(* the real interpreter for every operator: 22 events, all reached by the  *)
+(* route rt of the case ("text": EvalString of the program text, "apply":  *)
+(* Zlisp.Apply on the builtin function, "go": the exported Go functions    *)
+(* NumericDo / IntegerDo / CompareFunction).  What the statement requires  *)
+(* does not depend on the route, so the spec does not read rt: a Go panic  *)
+(* recorded on any route is a result outside every expected set.  Every    *)
+(* event is judged by NumTower!Expect on the 64-bit tower (8 limbs of 8    *)
+(* bits, floats 1+11+52); when the events are exhausted the laws of the    *)
+(* statement are checked on the RECORDED results of the case, for every    *)
+(* combination of numeric types: for non-NaN operands exactly one of       *)
+(* < == > holds (an error or a panic is not "holds"), and (< a b) =        *)
+(* (> b a).                                                                *)
 (* An event explained only by a named deviation that is enabled in         *)
 (* VERIF_DEVS marks the case "known:<id>".                                 *)
 (*                                                                         *)
 (* Case format (compact, see harness/cmd/zv/fam_num.go): words travel as   *)
 (* 4 limbs of 16 bits; r[sw+1][k] is the result of operator Ops[k]; fa, fb *)
 (* are the harness's float conversions of a and b, p[sw+1] the float       *)
-(* results of + - * / on them and the correctly rounded integer quotient   *)
-(* (named qn[sw+1]).  The spec looks these up at ITS conversions.          *)
+(* results of + - * / on them and the correctly rounded quotient of the    *)
+(* two integer VALUES (named qn[sw+1] after the reading of the two words:   *)
+(* "sq", "uq", "suq" signed over unsigned, "usq").  The spec looks these   *)
+(* up at ITS conversions and under the name IT derives from the types.     *)
 (***************************************************************************)
 EXTENDS NumTower, SequencesExt, Json, IOUtils
 
@@ -69,7 +78,6 @@ IsT(r) == r[1] = "bool" /\ r[2] = <<1>>
 LT == 1
 GT == 3
 EQ == 5
-LawsApply == \A k \in {LT, GT, EQ} : \A sw \in {0, 1} : Rec(k, sw)[1] = "bool"
 NoNaN == ~IsNaNNum(Num(Case.a)) /\ ~IsNaNNum(Num(Case.b))
 One3(sw) == LET n(k) == IF IsT(Rec(k, sw)) THEN 1 ELSE 0 IN n(LT) + n(EQ) + n(GT) = 1
 LawsHold ==
@@ -90,7 +98,7 @@ TDone ==
     /\ UNCHANGED <<ci, pos, dev>>
     /\ IF dev # ""
        THEN verdict' = "known" /\ PrintT(<<"VERDICT", Case.id, "known:" \o dev, pos - 1>>)
-       ELSE IF LawsApply /\ ~LawsHold
+       ELSE IF ~LawsHold
        THEN IF LawDevs # {}
             THEN verdict' = "known" /\ PrintT(<<"VERDICT", Case.id, "known:" \o (CHOOSE d \in LawDevs : TRUE), 0>>)
             ELSE verdict' = "bad" /\ PrintT(<<"VERDICT", Case.id, "bad", 0>>)
